@@ -492,6 +492,7 @@ impl DtlsInner {
                             break;
                         }
                     };
+                    ctx.current_record_epoch = record.epoch;
 
                     self.handle_decrypted_record(
                         record.content_type,
@@ -655,6 +656,15 @@ impl DtlsInner {
                 Ok(Some(msg)) => {
                     let consumed = msg_buf.len() - body.len();
                     let raw_msg = msg_buf.slice(0..consumed);
+
+                    // Finished is only ever sent after ChangeCipherSpec, i.e. under the
+                    // negotiated keys. One that arrives in an unprotected record is
+                    // forged or corrupt and must not reach the verification that fails
+                    // the connection.
+                    if msg.msg_type == HandshakeType::Finished && ctx.current_record_epoch == 0 {
+                        warn!("Ignoring Finished message in an unprotected record");
+                        continue;
+                    }
 
                     if msg.message_seq < ctx.recv_message_seq {
                         // If we just processed a HelloVerifyRequest, the server may
@@ -2196,6 +2206,8 @@ struct HandshakeContext {
     epoch: u16,
     /// Inbound DTLS record epoch (read epoch); advanced on peer ChangeCipherSpec only.
     read_epoch: u16,
+    /// Epoch of the record whose payload is being processed (0 = unprotected).
+    current_record_epoch: u16,
     message_seq: u16,
     recv_message_seq: u16,
     /// Set after processing a HelloVerifyRequest so that the next server
@@ -2232,6 +2244,7 @@ impl HandshakeContext {
             sequence_number: 0,
             epoch: 0,
             read_epoch: 0,
+            current_record_epoch: 0,
             message_seq: 0,
             recv_message_seq: 0,
             post_hvr: false,
